@@ -8,6 +8,7 @@ for corr/Corr_RF.v.  Property plugins (C04–C08, C12 …) reuse this with their
 """
 from __future__ import annotations
 
+import asyncio
 import copy
 import itertools
 import json
@@ -114,6 +115,13 @@ def rand_scenario(rng, **bias):
     if rng.random() < 0.1:
         sc["post"] = rand_stop(rng)
     sc["return"] = rng.choice([None, {"done": True}, {"n": 3, "l": [1, 2]}])
+    sc["omit_defaults"] = rng.random() < 0.3
+    if sc["omit_defaults"] and rng.random() < 0.7:
+        c["create_delay"] = 30
+        if c["update"][0] != "never":
+            c["update"] = [c["update"][0], 30]
+    if sc["pre"] is not None and sc["pre"][0] == "PermFail" and rng.random() < 0.5:
+        sc["pre_nonbool"] = rng.choice(["='false'", "=7", "=inputs.name", "=[true]"])
     # template
     r = rng.random()
     if r < 0.6:
@@ -204,6 +212,7 @@ def _realise_odoc(d, vals: list, path: str):
 
 def realise(sc) -> Real:
     r = Real()
+    tag = sc.get("tag", "")        # makes cache names unique when several scenarios share one process
     c = sc["cfg"]
     if c["kind"] is None:
         c["kind"] = f"Wk{next(_kind_counter)}"
@@ -225,7 +234,12 @@ def realise(sc) -> Real:
             r.inputs["emptyns"] = ""
     spec = {"apiConfig": api}
     if sc["pre"] is not None:
-        spec["preconditions"] = [{"assert": "=true", "permFail": {"message": "never"}}, _stop_pred(sc["pre"], "pre")]
+        if sc.get("pre_nonbool") and sc["pre"][0] == "PermFail":
+            # an assertion that evaluates to a (truthy) non-boolean: unevaluable => PermFail, nothing touched
+            spec["preconditions"] = [{"assert": "=true", "permFail": {"message": "never"}},
+                                     {"assert": sc["pre_nonbool"], "retry": {"message": "nonbool", "delay": 7}}]
+        else:
+            spec["preconditions"] = [{"assert": "=true", "permFail": {"message": "never"}}, _stop_pred(sc["pre"], "pre")]
     if sc["locals_err"]:
         spec["locals"] = {"bad": "=1/0"}
     t = sc["template"]
@@ -240,12 +254,12 @@ def realise(sc) -> Real:
         r.inputs["tname"] = "absent-template"
     elif t[0] == "RefNotReady":
         spec["resourceTemplateRef"] = {"name": "=inputs.tname"}
-        r.inputs["tname"] = "broken-template"
-        r.templates["broken-template"] = {"template": {}}
+        r.inputs["tname"] = "broken-template" + tag
+        r.templates["broken-template" + tag] = {"template": {}}
     elif t[0] == "Ref":
         spec["resourceTemplateRef"] = {"name": "=inputs.tname"}
-        r.inputs["tname"] = "tmpl-1"
-        r.templates["tmpl-1"] = {"template": copy.deepcopy(t[1])}
+        r.inputs["tname"] = "tmpl-1" + tag
+        r.templates["tmpl-1" + tag] = {"template": copy.deepcopy(t[1])}
     ov = sc["overlays"]
     if ov is not None:
         if ov[0] == "Stop":
@@ -271,7 +285,7 @@ def realise(sc) -> Real:
                 elif b[0] == "InlineErr":
                     e["overlay"] = {"spec": {"boom": "=1/0"}}
                 else:
-                    vf = f"vf-{i}"
+                    vf = f"vf-{i}{tag}"
                     e["overlayRef"] = {"kind": "ValueFunction", "name": vf}
                     if b[0] == "Fn":
                         fnvals = []
@@ -288,15 +302,22 @@ def realise(sc) -> Real:
                 out.append(e)
             spec["overlays"] = out
     create = {"enabled": c["create_enabled"]}
+    omit = bool(sc.get("omit_defaults"))      # rely on the CRD schema's defaults instead of writing 30
     if c["create_enabled"]:
-        create["delay"] = c["create_delay"]
+        if not (omit and c["create_delay"] == 30):
+            create["delay"] = c["create_delay"]
         co = sc["create_overlay"]
         if co is not None:
             create["overlay"] = {"spec": {"boom": "=1/0"}} if co[0] == "Err" else \
                 _realise_odoc(co[1], r.inputs["vals"], "inputs.vals")
     spec["create"] = create
     u = c["update"]
-    spec["update"] = {"never": {}} if u[0] == "never" else {u[0]: {"delay": u[1]}}
+    if u[0] == "never":
+        spec["update"] = {"never": {}}
+    elif omit and u[1] == 30:
+        spec["update"] = {u[0]: {}}
+    else:
+        spec["update"] = {u[0]: {"delay": u[1]}}
     if sc["post"] is not None:
         spec["postconditions"] = [_stop_pred(sc["post"], "post")]
     if sc["return"] is not None:
@@ -320,7 +341,7 @@ def strip_directives(o):
     return o
 
 
-async def _prepare(r: Real):
+async def _prepare(r: Real, fn_name="fn-under-test"):
     from koreo import cache
     from koreo.resource_template.structure import ResourceTemplate
     from koreo.resource_template.prepare import prepare_resource_template
@@ -332,7 +353,7 @@ async def _prepare(r: Real):
     for n, s in r.vfs.items():
         await cache.prepare_and_cache(ValueFunction, prepare_value_function,
                                       {"name": n, "resourceVersion": "1"}, copy.deepcopy(s))
-    return await drivers.prepare_rf("fn-under-test", r.spec)
+    return await drivers.prepare_rf(fn_name, r.spec)
 
 
 def _split_body(body):
@@ -420,6 +441,58 @@ def run(sc, live_builder=None, passes=1, decorate=None, faults=None):
     rec_mod.validate_match = wrapped
     try:
         return drivers.run_async(go()), r
+    finally:
+        rec_mod.validate_match = orig
+        drivers.reset_all()
+
+
+def run_concurrent(scs, latencies):
+    """Reconcile several scenarios CONCURRENTLY in one event loop (asyncio.gather), each against its own
+    in-memory cluster, with `latencies[i]` seconds of (virtual) delay on scenario i's first API call, so that
+    the reconciles interleave at the read.  Scenarios must have live=None or a concrete dict.
+    -> list of observations (same shape as run()'s), or None if a prepare failed."""
+    import koreo.resource_function.reconcile as rec_mod
+    drivers.reset_all()
+    reals = [realise(sc) for sc in scs]
+    seen = {}
+    orig = rec_mod.validate_match
+
+    def wrapped(*a, **kw):
+        actual = kw.get("actual", a[1] if len(a) > 1 else None)
+        try:
+            key = actual["metadata"]["name"]
+        except Exception:      # noqa: BLE001
+            key = None
+        res = orig(*a, **kw)
+        seen[key] = bool(res.match)
+        return res
+
+    async def one(i, sc, r, fn):
+        if isinstance(sc["live"], dict):
+            ns = sc["name"][2]
+            r.cluster.objects[(r.plural, ns, sc["name"][1])] = copy.deepcopy(sc["live"])
+        r.cluster.latency = {0: latencies[i]}
+        try:
+            res = await drivers.reconcile_rf(fn, r.inputs, r.cluster, owner=r.owner)
+            out = drivers.canon_outcome(res.outcome)
+        except Exception as e:      # noqa: BLE001
+            out = {"cls": "Raise", "exc": type(e).__name__, "msg": str(e)[:200]}
+        return out
+
+    async def go():
+        fns = []
+        for i, r in enumerate(reals):
+            fn, err = drivers.unwrap_prepared(await _prepare(r, fn_name=f"fn-{i}"))
+            if fn is None:
+                return None
+            fns.append(fn)
+        outs = await asyncio.gather(*[one(i, sc, r, fn) for i, (sc, r, fn) in enumerate(zip(scs, reals, fns))])
+        return [{"outcome": out, "calls": observe_calls(r.cluster), "match": seen.get(sc["name"][1]),
+                 "lookups": list(r.cluster.lookups)} for out, sc, r in zip(outs, scs, reals)]
+
+    rec_mod.validate_match = wrapped
+    try:
+        return drivers.run_async(go())
     finally:
         rec_mod.validate_match = orig
         drivers.reset_all()
